@@ -370,6 +370,18 @@ def gen_fusion_region(g, T, gid, flags):
         # outermost first: idx names innermost first
         if diffvar and li > 0:
             lvs = LOOPVARS[2:2 + levels]
+            if levels == 2:
+                # later nests may also use a permutation or a shift of the first nest's variables
+                # (renaming them to the first nest's names must then be simultaneous)
+                how = g.pick(['disjoint', 'swapped', 'shifted', 'shifted2'])
+                if how == 'swapped':
+                    lvs = [LOOPVARS[1], LOOPVARS[0]]
+                elif how == 'shifted':
+                    lvs = [LOOPVARS[2], LOOPVARS[0]]
+                elif how == 'shifted2':
+                    lvs = [LOOPVARS[1], LOOPVARS[2]]
+                if how != 'disjoint':
+                    tags.add('diffvar-permuted')
         else:
             lvs = LOOPVARS[0:levels]
         # lvs[0] = outer loop variable ... ; element() wants innermost first for rank 2: zr5(inner, outer)
@@ -643,7 +655,7 @@ def gen_block_region(g, T, flags, lv):
 # ------------------------------------------------------------------ case
 # triggers of listed known findings: generated only when the flag is True (the check switches a trigger on as soon as the
 # finding is no longer listed); a draw that would have used a disabled trigger is recorded in xf['avoided']
-TRIGGERS = ['unroll-exit', 'unroll-label', 'fusion-diffvar-case', 'block-local', 'block-lo', 'block-multisub',
+TRIGGERS = ['unroll-exit', 'unroll-label', 'fusion-diffvar-case', 'fission-empty-branch', 'block-local', 'block-lo', 'block-multisub',
             'block-out-partial']
 DEFAULT_FLAGS = {t: False for t in TRIGGERS}
 
@@ -656,6 +668,62 @@ def trigger(g, flags, name, pct):
         return True
     flags.setdefault('_avoided', []).append(name)
     return False
+
+
+# --- branches without statements (trigger 'fission-empty-branch'): loki's fission transformer rebuilds the whole routine
+# body and drops every construct/branch whose body is (or thereby becomes) empty, keeping the ELSE / DEFAULT part unguarded
+def _vanishes(s):
+    if s[0] == 'if':
+        return all(_eff_empty(b) for _, b in s[1]) and (s[2] is None or _eff_empty(s[2]))
+    if s[0] == 'select':
+        return all(_eff_empty(b) for _, b in s[2]) and (s[3] is None or _eff_empty(s[3]))
+    if s[0] == 'do':
+        return _eff_empty(s[5])
+    if s[0] == 'while':
+        return _eff_empty(s[2])
+    return False
+
+
+def _eff_empty(body):
+    return all(_vanishes(s) for s in body)
+
+
+def _branch_lists(s):
+    if s[0] == 'if':
+        return [b for _, b in s[1]] + ([s[2]] if s[2] is not None else [])
+    if s[0] == 'select':
+        return [b for _, b in s[2]] + ([s[3]] if s[3] is not None else [])
+    if s[0] == 'do':
+        return [s[5]]
+    if s[0] == 'while':
+        return [s[2]]
+    return []
+
+
+def empty_branches(stmts):
+    """True if an IF branch without statements is followed by a branch/ELSE with statements, or a CASE without
+    statements stands beside a CASE DEFAULT with statements (anywhere, nested constructs included)"""
+    for s in stmts:
+        bl = _branch_lists(s)
+        if s[0] == 'if':
+            e = [_eff_empty(b) for b in bl]
+            if any(e[i] and not all(e[i + 1:]) for i in range(len(e))):
+                return True
+        elif s[0] == 'select' and s[3] is not None and not _eff_empty(s[3]):
+            if any(_eff_empty(b) for _, b in s[2]):
+                return True
+        if any(empty_branches(b) for b in bl):
+            return True
+    return False
+
+
+def fill_empty_branches(stmts):
+    """in place: every IF / CASE branch without statements gets a comment line (loki then keeps the branch)"""
+    for s in stmts:
+        for b in _branch_lists(s):
+            fill_empty_branches(b)
+            if s[0] in ('if', 'select') and _eff_empty(b):
+                b.append(['comment', ' empty branch'])
 
 
 @st.composite
@@ -706,6 +774,9 @@ def cases(draw, kinds=None, flags=None, nvec=4):
         body += stmts
         regions.append(meta)
     body += filler(g, T)
+    if kind == 'fission' and not flags.get('fission-empty-branch') and empty_branches(body):
+        fill_empty_branches(body)
+        flags.setdefault('_avoided', []).append('fission-empty-branch')
     # make temporaries that survive observable only where that is legal: nothing to do (they are dead)
     if kind in ('unroll', 'fusion', 'fission', 'interchange'):
         opts['via'] = g.pick(['function', 'function', 'transformation'])
